@@ -720,7 +720,7 @@ def c_inline_new_scalars(f, recorded):
             if isinstance(e, ast.Subscript) and isinstance(e.value, ast.Name):
                 return array_types.get(e.value.id)
             return None
-        array_types = {pn: _base_type(pt) for pt, pn in f.params if '*' in pt}
+        array_types = {pn: _base_type(pt.replace('*', ' ').replace('[]', ' ')) for pt, pn in f.params if '*' in pt or '[' in pt}
         for st_ in f.walk():
             if isinstance(st_, CDecl) and (st_.pointer or st_.array):
                 array_types[st_.name] = _base_type(st_.ctype)
